@@ -337,7 +337,10 @@ func exoDocs() []interface{} {
 		// pointers to nil pointers (a lookup that "allocates on the way", as decoders do, would write here)
 		chains, &chains, &nilInner,
 		// two distinct types with one printed name (harness.exoT): anything keyed by the name confuses them
-		exoLocalA(), exoLocalB(), exoLocalA()}
+		exoLocalA(), exoLocalB(), exoLocalA(),
+		// a member that is still undecoded JSON (a decoder told to leave it alone)
+		map[string]interface{}{"kind": "x", "payload": json.RawMessage(`{"id":1,"l":[1,2]}`), "n": json.Number("3")},
+		map[string]json.RawMessage{"payload": json.RawMessage(`{"id":1}`)}}
 }
 
 type exoChains struct {
@@ -369,7 +372,7 @@ type exoList []interface{}
 type exoMap map[string]interface{}
 type exoStrings []string
 
-var exoExprs = []string{"Owner.Name", "Owner", "Recs[*].Name", "Recs[0].Name", "Recs[0]", "Deep.Name", "Name", "Tags[0]", "[Owner.Name, Recs[1].Tags]", "Owner.Name || Recs[0].Name", "b", "c", "c[0]", "[a, b, c]", "x", "z", "length(l)", "reverse(l)", "sort_by(l, &@)", "max_by(l, &@)", "min_by(@, &k)", "sort_by(@, &k)", "map(&@, l)", "contains(l, `1`)", "not_null(l)", "to_array(l)", "to_array(m)", "sort(l)", "sort(s)", "join(',', s)", "merge(m, m)", "keys(m)", "values(m)", "m.b", "m.b[0]", "l[0]", "l[1:]", "l[*]", "l[]", "n[]", "n[*][0]", "l[?@ > `1`]", "m.*", "length(m)", "reverse(s)", "max(l)", "sum(l)", "avg(l)", "to_string(l)", "to_string(m)", "type(l)", "type(m)", "l == l", "[l, m]", "{a: l}", "l | [0]", "abs(l[0])", "reverse(@)", "length(n)", "map(&length(@), n)",
+var exoExprs = []string{"payload.id", "[kind, payload.id]", "payload", "payload.l[0]", "keys(payload)", "n", "abs(n)", "payload || kind", "Owner.Name", "Owner", "Recs[*].Name", "Recs[0].Name", "Recs[0]", "Deep.Name", "Name", "Tags[0]", "[Owner.Name, Recs[1].Tags]", "Owner.Name || Recs[0].Name", "b", "c", "c[0]", "[a, b, c]", "x", "z", "length(l)", "reverse(l)", "sort_by(l, &@)", "max_by(l, &@)", "min_by(@, &k)", "sort_by(@, &k)", "map(&@, l)", "contains(l, `1`)", "not_null(l)", "to_array(l)", "to_array(m)", "sort(l)", "sort(s)", "join(',', s)", "merge(m, m)", "keys(m)", "values(m)", "m.b", "m.b[0]", "l[0]", "l[1:]", "l[*]", "l[]", "n[]", "n[*][0]", "l[?@ > `1`]", "m.*", "length(m)", "reverse(s)", "max(l)", "sum(l)", "avg(l)", "to_string(l)", "to_string(m)", "type(l)", "type(m)", "l == l", "[l, m]", "{a: l}", "l | [0]", "abs(l[0])", "reverse(@)", "length(n)", "map(&length(@), n)",
 	"Colors.red", "colors.red", "red", "blue", "a", "x", "x[0]", "x[0].Name", "StrMap.a", "Lists.x", "Lists.x[0]", "sort(Lists.x)", "Arr[0]", "Arr[*]", "Arr[1:]", "Arr[]", "length(Arr)", "Num", "abs(Num)", "Raw.a", "PP.Name", "PP.Tags[0]", "Any.a", "Any.a[1]",
 	"keys(Colors)", "values(StrMap)", "*", "Colors.*", "Nested.red.k.Name", "Nested.*.*.Name", "Nested.red", "Empty.red", "keys(Empty)", "U8[0]", "length(U8)", "abs(F32)", "abs(I)", "abs(U)", "I > `1`", "I == `3`", "to_string(@)", "to_string(Colors)", "length(@)", "keys(@)", "values(@)",
 	"[0]", "[*]", "[]", "[1:]", "[-1]", "[::-1]", "@ == @", "sort(Arr)", "sum(Arr)", "avg(Arr)", "max(Arr)", "max(U8)", "merge(StrMap, Colors)", "merge(@, @)", "type(Colors)", "type(Arr)", "type(Num)", "type(@)", "map(&@, Arr)", "reverse(Arr)", "reverse(@)", "join(',', Arr)", "contains(Arr, `1`)", "contains(@, `1`)",
@@ -451,7 +454,7 @@ func TestExoticDocs(t *testing.T) {
 // editInPlace changes every container of v without replacing any of them: mode 0 renames the
 // smallest key of every object (same number of members), mode 1 rotates the values among the
 // keys, mode 2 reverses every array, mode 3 adds one to every number, mode 4 swaps the first
-// two elements of every array and the values of the first two keys.
+// two elements of every array and the values of the first two keys, mode 5 gives the last element of every array another type.
 func editInPlace(v interface{}, mode int) {
 	switch t := v.(type) {
 	case map[string]interface{}:
@@ -506,6 +509,16 @@ func editInPlace(v interface{}, mode int) {
 			if len(t) > 1 {
 				t[0], t[1] = t[1], t[0]
 			}
+		case 5:
+			// the last element gets a value of another type (a verdict about the array's element type is history)
+			if len(t) > 1 {
+				switch t[len(t)-1].(type) {
+				case float64:
+					t[len(t)-1] = "n/a"
+				case string:
+					t[len(t)-1] = 7.0
+				}
+			}
 		}
 	}
 }
@@ -525,7 +538,7 @@ func predEdited(c Case) (r Result) {
 		return
 	}
 	live := mustJSON(c.Doc)
-	modes := []int{0, 1, 2, 3, 4, 0, 2}
+	modes := []int{0, 1, 2, 3, 4, 0, 2, 5, 3}
 	for step := -1; step < len(modes); step++ {
 		if step >= 0 {
 			editInPlace(live, modes[step])
@@ -643,10 +656,15 @@ func TestC15NonFinitePipe(t *testing.T) {
 
 func nilRootDocs() []interface{} {
 	var nilIface interface{}
-	return []interface{}{(*hwDoc)(nil), (*hwInner)(nil), []*hwDoc{nil}, hwDoc{}, &hwDoc{}, nilIface, (*[]string)(nil), map[string]interface{}(nil), []interface{}(nil), (*map[string]interface{})(nil), []string(nil), (**hwInner)(nil)}
+	in := &hwInner{Name: "gold", Tags: []string{"t1", "t2"}}
+	mixed := map[string]interface{}{"meta": *in, "ptr": in, "list": []hwInner{*in, {Name: "silver"}}, "plain": map[string]interface{}{"Name": "m"}, "deep": map[string]interface{}{"s": in}}
+	full := &hwDoc{Ǆep: "dz", Ანი: "ge", Ünï: "u", Ωmega: []string{"o1", "o2"}, Name: "d", Items: []*hwInner{in, nil}, Inner: *in, Ptr: in, Strs: []string{"b", "a"}, Nums: []float64{2, 1}}
+	return []interface{}{mixed, full, *full, (*hwDoc)(nil), (*hwInner)(nil), []*hwDoc{nil}, hwDoc{}, &hwDoc{}, nilIface, (*[]string)(nil), map[string]interface{}(nil), []interface{}(nil), (*map[string]interface{})(nil), []string(nil), (**hwInner)(nil)}
 }
 
-var nilRootExprs = []string{"@", "@ == `null`", "@ != `null`", "type(@)", "not_null(@, 'd')", "!@", "@ || 'x'", "@ && 'x'", "Name", "[@]", "{a: @}", "length(@)", "to_string(@)", "@.Name", "[0]", "*", "keys(@)", "to_array(@)", "@ | type(@)", "[@, @][0] == `null`",
+var nilRootExprs = []string{"meta.Name", "ptr.Name", "meta.Tags[0]", "list[0].Name", "list[*].Name", "ptr.Tags", "plain.Name", "deep.s.Name", "meta.Name || ptr.Name", "[meta.Name, ptr.Name]", "meta", "ptr.Tags[-1]", "meta.name", "ptr.name",
+	"\"ünï\"", "\"ǆep\"", "\"ანი\"", "\"ωmega\"[0]", "\"Ünï\"", "Inner.Name", "Ptr.Name", "Items[0].Name", "[\"ünï\", Name]", "\"ωmega\"[*]", "Inner.\"Name\"", "\"Name\"", "@.\"ünï\"", "Items[*].\"Name\"",
+	"@", "@ == `null`", "@ != `null`", "type(@)", "not_null(@, 'd')", "!@", "@ || 'x'", "@ && 'x'", "Name", "[@]", "{a: @}", "length(@)", "to_string(@)", "@.Name", "[0]", "*", "keys(@)", "to_array(@)", "@ | type(@)", "[@, @][0] == `null`",
 	"[*]", "[]", "[?@]", "[0:1]", "@[0]", "[0].Name", "merge(@, @)", "values(@)", "contains(@, 'a')", "reverse(@)", "sort(@)", "map(&@, @)", "join(',', @)", "not_null(@)", "[@][?@]", "@ == @", "Items", "Items[0]", "Ptr.Name", "to_number(@)"}
 
 func init() { predicates["nilroot"] = predNilRoot }
@@ -679,6 +697,9 @@ func predNilRoot(c Case) (r Result) {
 		n, err := normalise(o.Val)
 		if err != nil {
 			return fmt.Sprintf("unserialisable %T", o.Val)
+		}
+		if unorderedExpr(expr) {
+			return sortedCanon(n)
 		}
 		return ref.Canon(n)
 	}
@@ -1132,4 +1153,205 @@ func predUnknownBuiltinConcurrent(c Case) (r Result) {
 		r.Expected, r.Got = ref.Canon(orig), show(shared)
 	}
 	return
+}
+
+// ---------------------------------------------------------------------------
+// Round 27 (the caller's Go program).
+
+func init() {
+	predicates["edited-typed"] = predEditedTyped
+	predicates["pointer-pipe"] = predPointerPipe
+}
+
+var editedTypedExprs = []string{"Strs[1:]", "Strs[::-1]", "Nums[:2]", "Items[1:].Name", "Items[*].Name", "Strs", "Nums[0]", "sort(Strs)", "max(Nums)", "Items[?Name].Name", "sum(Nums)", "join(',', Strs)", "length(Strs)", "Strs[]", "reverse(Strs)", "Items[0].Tags[1:]", "Items[:2].Tags[:1]",
+	"Nums[?@ > `1`]", "Strs[-1]", "[Strs[0], Nums[-1]]", "Items[1].Name", "Inner.Tags[::-1]", "Ptr.Tags[0]", "contains(Strs, 'y')", "sort_by(Items, &Name)[0].Name", "max_by(Items, &Name).Name", "map(&Name, Items)", "avg(Nums)", "Strs[0:2] | [1]", "to_string(Strs)", "Name"}
+
+// predEditedTyped: one compiled expression, one struct document whose slices the caller edits
+// in place (an element, then the whole buffer refilled at the same length) between searches:
+// every search equals the one-shot Search of the document as it is now.
+func predEditedTyped(c Case) (r Result) {
+	expr := c.expr()
+	comp, cerr, pan := libCompile(expr)
+	if cerr != nil || pan != nil {
+		r.Discard = "does-not-compile"
+		return
+	}
+	in := &hwInner{Name: "n", Tags: []string{"x", "y", "z"}}
+	d := &hwDoc{Name: "d", Strs: []string{"a", "b", "c"}, Nums: []float64{1, 2, 3}, Items: []*hwInner{in, {Name: "m", Tags: []string{"p", "q"}}, {Name: "k", Tags: []string{"t"}}}, Inner: *in, Ptr: in}
+	render := func(o libOut) string {
+		if o.Panic != nil {
+			return "panic: " + fmt.Sprint(o.Panic)
+		}
+		if o.Err != nil {
+			return "error"
+		}
+		n, err := normalise(o.Val)
+		if err != nil {
+			return fmt.Sprintf("unserialisable %T", o.Val)
+		}
+		return ref.Canon(n)
+	}
+	edits := []func(){
+		func() {},
+		func() { d.Strs[1] = "y"; d.Nums[0] = 110; d.Items[1].Name = "after"; d.Items[0].Tags[1] = "Y" },
+		func() { d.Strs = append(d.Strs[:0], "x", "y", "zz"); d.Nums = append(d.Nums[:0], 7, 8, 9) },
+		func() { d.Items[0], d.Items[2] = d.Items[2], d.Items[0]; d.Inner.Tags[0] = "I"; d.Name = "e" },
+		func() { d.Strs[0], d.Strs[2] = d.Strs[2], d.Strs[0]; d.Nums[2] = -1 },
+	}
+	r.Nontrivial = true
+	for step, edit := range edits {
+		edit()
+		var got libOut
+		got.Panic = safely(func() { got.Val, got.Err = comp.Search(d) })
+		g := render(got) // rendered now: a result may be part of the document
+		one := libSearch(expr, d)
+		if strings.HasPrefix(g, "panic") {
+			r.Violation = "Search panicked"
+			r.Got = g
+			return
+		}
+		if g != render(one) {
+			r.Violation = fmt.Sprintf("a compiled expression searched the caller's struct document after %d in-place edits of its slices and did not return what the one-shot Search returns for the document as it is now", step)
+			r.Expected, r.Got = "one-shot: "+render(one), "compiled: "+g
+			return
+		}
+	}
+	return
+}
+
+func TestC13EditedTypedDocs(t *testing.T) {
+	for _, e := range editedTypedExprs {
+		run(t, Case{Property: "C13", Kind: "edited-typed", Expr: e})
+	}
+	st := statsFor("C13")
+	st.mu.Lock()
+	st.Exhaustive["C13.edited-typed-docs"] = fmt.Sprintf("%d expressions over the typed slices of a struct document edited in place 4 times (elements, refilled buffers, swapped pointers), compiled against one-shot", len(editedTypedExprs))
+	st.mu.Unlock()
+}
+
+// predPointerPipe: the pipe law (library against library) on caller-built documents that hold
+// pointers to maps, slices, structs and pointers below the root.
+func predPointerPipe(c Case) (r Result) {
+	a := c.expr()
+	b, _ := c.Extra["b"].(string)
+	m := map[string]interface{}{"cpu": 2.0, "mem": "1G"}
+	tags := []interface{}{"a", "b"}
+	strs := []string{"s1", "s2"}
+	in := &hwInner{Name: "n", Tags: []string{"x"}}
+	var any interface{} = map[string]interface{}{"k": 1.0}
+	doc := map[string]interface{}{"limits": &m, "tags": &tags, "strs": &strs, "p": in, "pp": &in, "any": &any, "plain": m, "list": []interface{}{&m, &tags, in}}
+	whole := libSearch("("+a+") | ("+b+")", doc)
+	s1 := libSearch(a, doc)
+	if whole.Panic != nil || s1.Panic != nil {
+		r.Violation = "Search panicked on a document holding pointers"
+		r.Got = showOut(whole) + " / " + showOut(s1)
+		return
+	}
+	var s2 libOut
+	if s1.Err == nil {
+		s2 = libSearch(b, s1.Val)
+		if s2.Panic != nil {
+			r.Violation = "Search panicked on the intermediate value"
+			r.Got = showOut(s2)
+			return
+		}
+	}
+	r.Nontrivial = true
+	render := func(o libOut) string {
+		if o.Err != nil {
+			return "error"
+		}
+		n, err := normalise(o.Val)
+		if err != nil {
+			return fmt.Sprintf("unserialisable %T", o.Val)
+		}
+		if unorderedExpr(a + b) {
+			return sortedCanon(n)
+		}
+		return ref.Canon(n)
+	}
+	splitErr := s1.Err != nil || s2.Err != nil
+	if (whole.Err != nil) != splitErr {
+		r.Violation = "'A | B' is an error exactly when one of the two steps is: violated on a document holding pointers"
+		r.Expected, r.Got = fmt.Sprintf("split: step1=%s step2=%s", render(s1), render(s2)), "composed: "+render(whole)
+		return
+	}
+	if whole.Err == nil && render(whole) != render(s2) {
+		r.Violation = "Search('A | B', d) differs from Search(B, Search(A, d)) on a document holding pointers"
+		r.Expected, r.Got = "split: "+render(s2), "composed: "+render(whole)
+	}
+	return
+}
+
+func TestC15PointerDocs(t *testing.T) {
+	as := []string{"limits", "tags", "strs", "p", "pp", "any", "plain", "list[0]", "list[1]", "list[2]", "[limits][0]", "@", "list", "not_null(limits)", "limits || tags"}
+	bs := []string{"cpu", "[0]", "keys(@)", "type(@)", "Name", "length(@)", "@", "k", "[*]", "*", "to_string(@)", "[0].cpu", "Tags[0]", "!@", "@ == @", "[]", "[1:]", "not_null(@)"}
+	n := 0
+	for _, a := range as {
+		for _, b := range bs {
+			run(t, Case{Property: "C15", Kind: "pointer-pipe", Expr: a, Extra: map[string]interface{}{"b": b}})
+			n++
+		}
+	}
+	st := statsFor("C15")
+	st.mu.Lock()
+	st.Exhaustive["C15.pointer-docs"] = fmt.Sprintf("%d first stages x %d second stages on a caller-built document holding pointers to maps, slices, structs and pointers: %d pipes, composed against two-step", len(as), len(bs), n)
+	st.mu.Unlock()
+}
+
+// unorderedExpr: the expression iterates over the members of an object (object wildcard, keys,
+// values), whose order is unspecified: two evaluations may list them differently.
+func unorderedExpr(e string) bool {
+	if strings.Contains(e, "keys(") || strings.Contains(e, "values(") {
+		return true
+	}
+	for i := 0; i < len(e); i++ {
+		if e[i] == '*' && (i == 0 || e[i-1] != '[') {
+			return true
+		}
+	}
+	return false
+}
+
+// sortedCanon renders a value with the elements of every array sorted (for unorderedExpr only).
+func sortedCanon(v interface{}) string {
+	switch t := v.(type) {
+	case []interface{}:
+		parts := make([]string, len(t))
+		for i, e := range t {
+			parts[i] = sortedCanon(e)
+		}
+		sortStrings(parts)
+		return "[" + strings.Join(parts, ",") + "]"
+	case map[string]interface{}:
+		ks := ref.SortedKeys(t)
+		parts := make([]string, len(ks))
+		for i, k := range ks {
+			parts[i] = ref.Canon(k) + ":" + sortedCanon(t[k])
+		}
+		return "{" + strings.Join(parts, ",") + "}"
+	}
+	return ref.Canon(v)
+}
+
+// TestC16ToNumberTexts: to_number over every text of the C09 string universe and a list of
+// spellings other number parsers accept, bare and inside lists, objects and map(): the result
+// is JSON data (a float64 or null), never another Go number type.
+func TestC16ToNumberTexts(t *testing.T) {
+	texts := append([]string{}, c09Strings...)
+	for _, s := range []string{"0x1F", "0o17", "0b101", "0X1F", "-0x1f", "+0x1F", "1_000", "0x1p-2", "1e5", "1E+5", "0.5e-3", "١٢٣", "１２３", "1,5", "1 000", "Inf", "-inf", "infinity", "NaN", "nan", "0x", "0b", "0o", "00", "007", "-0", "+0", ".5", "5.", "1e", "e5", "0e0", "9223372036854775807", "18446744073709551615", "1e308", "1e309", "-1e309", "4.9e-324", "1e-400"} {
+		texts = append(texts, ref.Canon(s))
+	}
+	n := 0
+	for _, q := range texts {
+		doc := `{"s":` + q + `,"l":[` + q + `,"1",` + q + `]}`
+		for _, e := range []string{"to_number(s)", "[to_number(s)]", "{a: to_number(s)}", "map(&to_number(@), l)", "l[*].to_number(@)", "to_number(s) || `0`", "not_null(to_number(s), `1`)", "[to_number(s), to_number(l[1])]", "to_number(to_string(to_number(s)))"} {
+			run(t, Case{Property: "C16", Kind: "jsondata", Expr: e, Doc: doc, Extra: map[string]interface{}{"cell": "to_number-text"}})
+			n++
+		}
+	}
+	st := statsFor("C16")
+	st.mu.Lock()
+	st.Exhaustive["C16.to_number-texts"] = fmt.Sprintf("%d number-like texts x 9 positions: %d cases", len(texts), n)
+	st.mu.Unlock()
 }
